@@ -1338,6 +1338,10 @@ namespace awkward {
       }
       combinationslen = size;
       for (int64_t j = 2;  j <= thisn;  j++) {
+        if (size - j + 1 > 0  &&  combinationslen > 1152921504606846975 / (size - j + 1)) {
+          throw std::invalid_argument(
+            std::string("number of combinations is too large") + FILENAME(__LINE__));
+        }
         combinationslen *= (size - j + 1);
         combinationslen /= j;
       }
